@@ -930,3 +930,85 @@ def retry_not_defeated(ctx, rule):
         raise AnalysisError('retry_not_defeated: only %d decorated '
                             'functions found' % n)
     return n
+
+
+SERVICE_LOOPS = (
+    ('mistral.scheduler.default_scheduler.DefaultScheduler.'
+     '_job_store_checker', '_process_store_jobs'),
+    ('mistral.services.legacy_scheduler.LegacyScheduler._loop',
+     '_process_delayed_calls'),
+    ('mistral.services.action_heartbeat_checker._loop',
+     'handle_expired_actions'),
+)
+
+
+def service_loops_survive(ctx, rule, which=None):
+    """The polling threads outlive a failing iteration: the work of one
+    iteration is inside `try ... except Exception` (or broader) that does not
+    re-raise, inside the `while not stopped` loop.  A narrower handler lets
+    an unexpected error (ImportError for a stale job row, AttributeError,
+    ...) end the thread: jobs captured by dead instances are never
+    recaptured, expired actions never failed."""
+    prog = ctx.prog
+    n = 0
+    for fq, work in SERVICE_LOOPS:
+        if which and not any(w in fq for w in which):
+            continue
+        f = prog.func(fq)
+        loops = [x for x in own_nodes(f.node) if isinstance(x, ast.While)]
+        calls = [c for c in own_nodes(f.node) if isinstance(c, ast.Call) and
+                 U.call_name(c) == work]
+        if len(loops) != 1 or len(calls) != 1:
+            raise AnalysisError('service loop %s: shape' % fq)
+        c = calls[0]
+        trys = [t for t in ast.walk(loops[0]) if isinstance(t, ast.Try) and
+                any(y is c for b in t.body for y in ast.walk(b))]
+        ok = bool(trys) and any(
+            any(z.split('.')[-1] in ('Exception', 'BaseException')
+                for z in U.handler_types(h)) and
+            not any(isinstance(y, (ast.Raise, ast.Break, ast.Return))
+                    for s_ in h.body for y in ast.walk(s_))
+            for t in trys for h in t.handlers)
+        n += 1
+        rule.check(ok, ctx.construct(f, extra='an iteration cannot end the '
+                                     'thread'),
+                   '%s() is not wrapped in `except Exception` (handlers: '
+                   '%s) inside the polling loop: an unexpected error ends '
+                   'the thread for good' % (work, [
+                       U.handler_types(h) for t in trys
+                       for h in t.handlers]), ctx.loc(f, c))
+    return n
+
+
+def batch_items_isolated(ctx, rule, fq, call_pred, what):
+    """In a batch loop, the per-item call is protected per item: the `try`
+    that contains it lies inside the loop body (a `try` around the whole
+    loop ends the batch at the first failing item - the rest is never
+    invoked although the batch is deleted afterwards)."""
+    prog = ctx.prog
+    f = prog.func(fq)
+    calls = [c for c in own_nodes(f.node) if isinstance(c, ast.Call) and
+             call_pred(c)]
+    if not calls:
+        raise AnalysisError('%s: per-item call not found' % fq)
+    for c in calls:
+        loops = [x for x in own_nodes(f.node) if isinstance(x, ast.For) and
+                 any(y is c for b in x.body for y in ast.walk(b))]
+        ok = False
+        for lp in loops:
+            for t in [t for b in lp.body for t in ast.walk(b)
+                      if isinstance(t, ast.Try)]:
+                if any(y is c for b in t.body for y in ast.walk(b)) and any(
+                        any(z.split('.')[-1] in ('Exception',
+                                                 'BaseException')
+                            for z in U.handler_types(h)) and
+                        not any(isinstance(y, (ast.Raise, ast.Break,
+                                               ast.Return))
+                                for s_ in h.body for y in ast.walk(s_))
+                        for h in t.handlers):
+                    ok = True
+        rule.check(ok, ctx.construct(f, c, extra='each item protected on '
+                                     'its own'),
+                   '%s: a failing item ends the whole batch (the handler is '
+                   'not inside the loop / does not cover Exception / leaves '
+                   'the loop)' % what, ctx.loc(f, c))
